@@ -1055,7 +1055,8 @@ def load_func_for_dataclass(
 
     on_unknown_key = meta.v1_on_unknown_key
 
-    catch_all_field: str | None = field_to_aliases.pop(CATCH_ALL, None)
+    # do not pop: the alias table is shared by every (possibly concurrent) generation for `cls`
+    catch_all_field: str | None = field_to_aliases.get(CATCH_ALL)
     has_catch_all = catch_all_field is not None
 
     if has_catch_all:
